@@ -17,7 +17,10 @@ RULE = ("Hypothesis builds a declaration context (int/float/complex scalars, int
         "different binary operators adjacent without brackets, or a unary sign next to **, or division by a computed "
         "integer. Distinct = SHA-1 of the script text. Cases whose reference error bound exceeds 1e-14*|value| or that "
         "leave the stated domain (int64, real function domains, int**negative int, negative base with fractional "
-        "exponent) are discarded and counted.")
+        "exponent) are discarded and counted."
+        " Scenario groups: exact quotients of integers used as exponents or scaled beyond the 64-bit range; the same"
+        " script with every function argument made complex (x -> (x)+0j) and complex-typed declarations is loaded"
+        " first (a function value does not depend on earlier evaluations).")
 ASSUMPTIONS = ["mpmath 50-digit arithmetic and the first-order error bound of bbv/model/numeric.py",
                "precedence as stated in C03: brackets, unary sign, right-assoc **, * /, + -",
                "reference lexer derived from blackbird.g4 agrees with the shipped lexer (checked by C14)"]
